@@ -320,8 +320,8 @@ class BufRun:
                 else:
                     # "exactly n bytes or IncompleteRead": no byte string has a negative length, the call must fail
                     if code == 0:
-                        mon.append(f"op {idx}: receive_exactly({n}) returned {val!r} and consumed it "
-                                   f"(buffer {buf0!r} -> {buf1!r}) for a negative count")
+                        mon.append(f"op {idx}: receive_exactly({n}) returned {val!r} (buffer {buf0!r} -> {buf1!r}) "
+                                   f"instead of failing for a negative count")
                     flags.add("exactly_negative_count")
             elif t == "u" and len(delim) >= 1:
                 m = o[2]
